@@ -149,5 +149,48 @@ func verifC14StreamMix(K int) {
 	vsymReach("C14_stream_mix")
 }
 
+func VerifHarness_C14_StreamMix_1() { verifC14StreamMix(1) }
 func VerifHarness_C14_StreamMix_2() { verifC14StreamMix(2) }
 func VerifHarness_C14_StreamMix_3() { verifC14StreamMix(3) }
+
+// C18-O4: repeating queries on one Querier.  A first selector (symbolic
+// container and operator) is evaluated, then a second one on the SAME Querier;
+// the second answer must be the one a fresh Querier gives for it: what was
+// asked before leaves no trace.
+func verifC18Repeat(K int) {
+	sel := func(tag string) []logql.LabelMatcher {
+		j := vsymChoice(tag+"Container", K+1)
+		if j == K {
+			return nil // every container
+		}
+		op := []logql.BinOp{logql.OpEq, logql.OpNotEq}[vsymChoice(tag+"Op", 2)]
+		return []logql.LabelMatcher{{Label: "container", Op: op, Value: "c" + strconv.Itoa(j)}}
+	}
+	read := func(q *Querier, m []logql.LabelMatcher) []string {
+		it, err := q.SelectLogs(context.Background(), 1, 2, logqlengine.SelectLogsParams{Labels: m})
+		vsymAssert(err == nil, "selection succeeds")
+		var out []string
+		var r logstorage.Record
+		for it.Next(&r) {
+			id, _ := r.ResourceAttrs.AsMap().Get("container_id")
+			out = append(out, id.Str()+"/"+r.Body)
+		}
+		vsymAssert(it.Err() == nil && it.Close() == nil, "reading succeeds")
+		return out
+	}
+	first, second := sel("first"), sel("second")
+	shared := &Querier{client: verifInventory(K)}
+	shared.client.(*fakeClient).noGate = true
+	_ = read(shared, first)
+	got := read(shared, second)
+	fresh := &Querier{client: verifInventory(K)}
+	fresh.client.(*fakeClient).noGate = true
+	want := read(fresh, second)
+	vsymAssert(len(got) == len(want), "a repeated or later query returns as many records as on a fresh querier")
+	for i := range want {
+		vsymAssert(i < len(got) && got[i] == want[i], "a repeated or later query returns the records a fresh querier returns")
+	}
+	vsymReach("C18_repeat")
+}
+
+func VerifHarness_C18_Repeat_3() { verifC18Repeat(3) }
